@@ -27,7 +27,7 @@ def fam_branches():
         out.append((f"br_ifnot_{k}", _loop(f"va = d0.Setting\nif not va {op} {c}:\n    d1.Setting = 5\nd1.On = va")))
         out.append((f"br_ifelse_{k}", _loop(f"va = d0.Setting\nvb = d1.Setting\nif va {op} vb:\n    d2.Setting = va - vb\nelse:\n    d2.Setting = vb * 2")))
         out.append((f"br_elif_{k}", _loop(f"va = d0.Setting\nif va {op} 0:\n    d1.Setting = 10\nelif va {op} 1:\n    d1.Setting = 20\nelse:\n    d1.Setting = 30")))
-        out.append((f"br_while_{k}", _loop(f"va = d0.Setting\ncnt = 0\nwhile cnt {op} va and cnt < 3:\n    cnt = cnt + 1\nd1.Setting = cnt")))
+        out.append((f"br_while_{k}", _loop(f"va = d0.Setting\ncnt = 0\nwhile cnt {op} va:\n    cnt = cnt + 1\n    if cnt > 2:\n        break\nd1.Setting = cnt")))
         out.append((f"br_val_{k}", _loop(f"va = d0.Setting\nvb = va {op} {c}\nd1.Setting = vb + 2")))
         out.append((f"br_ifexp_{k}", _loop(f"va = d0.Setting\nd1.Setting = 7 if va {op} {c} else va")))
         out.append((f"br_nested_{k}", _loop(f"va = d0.Setting\nvb = d1.Setting\nif va {op} 1:\n    if vb {op} 0:\n        d2.Setting = 1\n    else:\n        d2.Setting = 2\nelse:\n    d2.Setting = 3")))
@@ -67,7 +67,7 @@ def fam_functions():
     out.append(("fn_live_across", HEADER + "def fa(xa):\n    tmp = xa * 3\n    return tmp + 1\nwhile True:\n    va = d0.Setting\n    vb = d1.Setting\n    vc = fa(va)\n    d2.Setting = va + vb + vc\n    yield_()\n"))
     out.append(("fn_early_loop", HEADER + "def fa(xa):\n    for idx in range(4):\n        if idx == xa:\n            return idx + 10\n    return 0\nwhile True:\n    d1.Setting = fa(d0.Setting)\n    yield_()\n"))
     out.append(("fn_arg_call", HEADER + "def fa(xa):\n    return xa + 1\ndef fb(xa, xb):\n    return xa - xb\nwhile True:\n    d1.Setting = fb(fa(d0.Setting), fa(2))\n    yield_()\n"))
-    out.append(("fn_cond_call", HEADER + "def fa(xa):\n    return xa > 0\nwhile True:\n    if fa(d0.Setting):\n        d1.On = 1\n    else:\n        d1.On = 0\n    yield_()\n"))
+    out.append(("fn_cond_call", HEADER + "def fa(xa):\n    return xa > 0\nwhile True:\n    vt = fa(d0.Setting)\n    if vt:\n        d1.On = 1\n    else:\n        d1.On = 0\n    yield_()\n"))
     out.append(("fn_global", HEADER + "total = 0\ndef fa(xa):\n    global total\n    total = total + xa\nwhile True:\n    fa(d0.Setting)\n    d1.Setting = total\n    yield_()\n"))
     out.append(("fn_three_args", HEADER + "def fa(xa, xb, xc):\n    return xa * 100 + xb * 10 + xc\nwhile True:\n    d1.Setting = fa(1, d0.Setting, 3)\n    yield_()\n"))
     out.append(("fn_tail", HEADER + "def fa(xa):\n    return xa + 5\ndef fb(xa):\n    return fa(xa * 2)\nwhile True:\n    d1.Setting = fb(d0.Setting)\n    yield_()\n"))
@@ -85,11 +85,11 @@ def fam_functions():
 
 def fam_pressure():
     out = []
-    for k in (2, 5, 9, 13):
+    for k in (2, 5, 7, 11):
         reads = "\n".join(f"v{i} = d{i % 2}.Setting + {i}" for i in range(k))
-        tot = " + ".join(f"v{i}" for i in range(k))
-        out.append((f"pr_live_{k}", _loop(reads + f"\nd2.Setting = {tot}\nd3.Setting = v0 - v{k-1}")))
-    for k in (3, 7):
+        sums = "acc = v0\n" + "\n".join(f"acc = acc + v{i} * {i + 1}" for i in range(1, k))
+        out.append((f"pr_live_{k}", _loop(reads + f"\n{sums}\nd2.Setting = acc\nd3.Setting = v0 - v{k-1}")))
+    for k in (3, 5):
         reads = "\n".join(f"    v{i} = xa + {i}" for i in range(k))
         tot = " + ".join(f"v{i}" for i in range(k))
         out.append((f"pr_call_{k}", HEADER + f"def fa(xa):\n{reads}\n    return {tot}\nwhile True:\n    wa = d0.Setting\n    wb = wa * 2\n    wc = fa(wa)\n    d1.Setting = wa + wb + wc\n    yield_()\n"))
@@ -101,9 +101,12 @@ def fam_pressure():
 def fam_access():
     out = []
     out.append(("ac_dev", _loop("d1.Setting = d0.Temperature\nd1.On = d0.Pressure > 1")))
-    out.append(("ac_slot", _loop("d1.Setting = d0[0].Quantity + d0[1].Quantity")))
-    out.append(("ac_batch", _loop("vt = StructureWallHeaters.Temperature.Average\nStructureWallHeaters.On = vt < 1")))
-    out.append(("ac_named", _loop('va = StructureGasSensors["out"].Pressure.Maximum\nd0.Setting = va')))
+    out.append(("ac_slot", HEADER + "fz = AdvancedFurnace(d0)\nwhile True:\n    d1.Setting = fz.slot0.Occupied + fz.Export.Quantity\n    yield_()\n"))
+    out.append(("ac_typed", HEADER + "hz = WallHeater(d0)\nwhile True:\n    hz.On = hz.Power < 1\n    d1.Setting = WallHeater(d2).Power\n    yield_()\n"))
+    out.append(("ac_batch", _loop("vt = WallHeaters.Power.Average\nWallHeaters.On = vt < 1\nd0.Setting = WallHeaters.Maximum.Power")))
+    out.append(("ac_named", _loop('va = GasSensors["out"].Pressure.Maximum\nd0.Setting = va\nWallLights["out"].On = va > 1')))
+    out.append(("ac_batch_var", HEADER + "panels = SolarPanels\nsensor = DaylightSensor(d0)\nwhile True:\n    panels.Horizontal = sensor.Horizontal\n    panels.Vertical = 90 - sensor.Vertical\n    yield_()\n"))
+    out.append(("ac_stack_other", _loop("stz = Stack(d1)\nva = stz[3]\nstz[4] = va + 1") if False else HEADER + "stz = Stack(d1)\nwhile True:\n    va = stz[3]\n    stz[4] = va + 1\n    yield_()\n"))
     out.append(("ac_stack_own", _loop("stack[10] = d0.Setting\nvb = stack[10]\nd1.Setting = vb + 1")))
     out.append(("ac_hash", _loop('d0.Setting = HASH("abc")\nd1.Setting = d0.PrefabHash == HASH("StructureWallHeater")')))
     out.append(("ac_math", _loop("va = d0.Setting\nd1.Setting = max(va, 1) + min(va, 0) + abs(va) + floor(va / 2)")))
